@@ -10,7 +10,7 @@ lit   := N | T | F | I<n> | D<k> | S<s> | B<id>
 block := { stmt* }
 stmt  := A x lit | P id x | I cond block else
 else  := n | e block | i cond block else
-cond  := v x | y x tname neg | z x neg | ! cond | & cond cond | | cond cond
+cond  := v x | y x tname neg | z x neg | q x lit neg | t x tname0 tname neg | ! cond | & cond cond | | cond cond
 ```
 answer: `ok T=<id>:<x>:<type>;… S=<id>:<x>:<value>;…` (`T` = `TypeAt` for every probe, `S` = `Sem` trace). -/
 namespace Drv.Flow
@@ -37,13 +37,24 @@ def parseTName (s : String) : Option TName :=
 def parseBool (s : String) : Option Bool :=
   match s with | "0" => some false | "1" => some true | _ => none
 
+def parseCLit (s : String) : Option CLit :=
+  match parseLit s with
+  | some (.bool b) => some (.bool b)
+  | some (.int n) => some (.int n)
+  | some (.flt k) => some (.flt k)
+  | some (.str k) => some (.str k)
+  | _ => none
+
 def parseCond : Nat → Toks → Option (Cond × Toks)
   | 0, _ => none
   | fuel + 1, ts =>
     match ts with
-    | "v" :: x :: r => do pure (.truthy (← x.toNat?), r)
-    | "y" :: x :: t :: n :: r => do pure (.typeIs (← x.toNat?) (← parseTName t) (← parseBool n), r)
-    | "z" :: x :: n :: r => do pure (.isNil (← x.toNat?) (← parseBool n), r)
+    | "v" :: x :: r => do pure (.leaf (.truthy (← x.toNat?)), r)
+    | "y" :: x :: t :: n :: r => do pure (.leaf (.typeIs (← x.toNat?) (← parseTName t) (← parseBool n)), r)
+    | "z" :: x :: n :: r => do pure (.leaf (.isNil (← x.toNat?) (← parseBool n)), r)
+    | "q" :: x :: l :: n :: r => do pure (.leaf (.eqLit (← x.toNat?) (← parseCLit l) (← parseBool n)), r)
+    | "t" :: x :: t0 :: t :: n :: r => do
+      pure (.leaf (.stored (← x.toNat?) (← parseTName t0) (← parseTName t) (← parseBool n)), r)
     | "!" :: r => do
       let (c, r) ← parseCond fuel r
       pure (.not c, r)
